@@ -124,7 +124,7 @@ func c13Check(c c13Case) error {
 				if a >= 1<<24 {
 					continue
 				}
-				own, ok := owner.get(a>>4)
+				own, ok := owner.get(a >> 4)
 				var got byte
 				pe := rig.Safe(func() error { got = b.EaRead(a); return nil })
 				if !ok {
@@ -136,7 +136,7 @@ func c13Check(c c13Case) error {
 				}
 			}
 		case "read":
-			own, ok := owner.get(op.Start>>4)
+			own, ok := owner.get(op.Start >> 4)
 			var got byte
 			pe := rig.Safe(func() error { got = b.EaRead(op.Start); return nil })
 			if !ok {
@@ -159,7 +159,7 @@ func c13Check(c c13Case) error {
 				return err
 			}
 		case "write":
-			own, ok := owner.get(op.Start>>4)
+			own, ok := owner.get(op.Start >> 4)
 			pe := rig.Safe(func() error { b.EaWrite(op.Start, op.Val); return nil })
 			if !ok {
 				if pe == nil {
@@ -190,7 +190,7 @@ func c13Check(c c13Case) error {
 			want := make([]byte, n)
 			for j := 0; j < n; j++ {
 				a := op.Start + uint32(j)
-				if own, ok := owner.get(a>>4); ok {
+				if own, ok := owner.get(a >> 4); ok {
 					want[j] = stubs[own].peek(a)
 				} else {
 					want[j] = sentinel
@@ -206,7 +206,7 @@ func c13Check(c c13Case) error {
 			for j := 0; j < n; j++ {
 				if buf[j] != want[j] {
 					a := op.Start + uint32(j)
-					own, ok := owner.get(a>>4)
+					own, ok := owner.get(a >> 4)
 					return fmt.Errorf("%s: EaDump($%06X,$%06X) position %d (address $%06X, owner #%d attached=%v) holds %02x, a single read gives %02x", what, op.Start, op.End, j, a, own, ok, buf[j], want[j])
 				}
 			}
@@ -217,7 +217,7 @@ func c13Check(c c13Case) error {
 			}
 			for si, s := range stubs {
 				for _, ac := range s.log {
-					if own, ok := owner.get(ac.Addr>>4); !ok || own != si || ac.Write || ac.Addr < op.Start || ac.Addr > op.End {
+					if own, ok := owner.get(ac.Addr >> 4); !ok || own != si || ac.Write || ac.Addr < op.Start || ac.Addr > op.End {
 						return fmt.Errorf("%s: EaDump($%06X,$%06X) asked memory #%d for address $%06X (write=%v) which it does not own inside the range", what, op.Start, op.End, si, ac.Addr, ac.Write)
 					}
 				}
